@@ -228,14 +228,79 @@ def search(pattern, subject, flags=0):
     return Match(groups)
 
 
+class PatShim:
+    """Stands in for a compiled pattern (re.compile(...)): search on symbolic text goes through the same models as
+    re.search; everything else is the real compiled pattern."""
+
+    def __init__(self, shim, pattern, flags):
+        self._shim = shim
+        self._pattern = pattern
+        self._flags = flags
+        self._real = _re.compile(pattern, flags)
+
+    def __getattr__(self, name):
+        return getattr(self._real, name)
+
+    def search(self, string, *a):
+        if a and isinstance(string, SymBytesBase):
+            raise Inconclusive("compiled pattern search with pos/endpos on symbolic text")
+        if not isinstance(string, SymBytesBase):
+            return self._real.search(string, *a)
+        return self._shim.search(self._pattern, string, self._flags)
+
+    def _unsupported(self, name):
+        def f(string, *a, **k):
+            subj = a[0] if name in ("sub", "subn") and a else string
+            if isinstance(subj, SymBytesBase) or isinstance(string, SymBytesBase):
+                raise Inconclusive(f"compiled pattern .{name} on symbolic text is not modelled")
+            return getattr(self._real, name)(string, *a, **k)
+        return f
+
+    def match(self, string, *a):
+        return self._unsupported("match")(string, *a)
+
+    def fullmatch(self, string, *a):
+        return self._unsupported("fullmatch")(string, *a)
+
+    def sub(self, repl, string, *a, **k):
+        return self._unsupported("sub")(repl, string, *a, **k)
+
+    def split(self, string, *a, **k):
+        return self._unsupported("split")(string, *a, **k)
+
+    def findall(self, string, *a):
+        return self._unsupported("findall")(string, *a)
+
+
 class ReShim:
     """Stands in for the module `re` inside a geckolib module."""
+
+    def compile(self, pattern, flags=0):
+        if isinstance(pattern, SymBytesBase):
+            pattern = pattern.concrete()
+        return PatShim(self, pattern, flags)
 
     def __init__(self):
         self.calls = []
 
     def __getattr__(self, name):
         return getattr(_re, name)
+
+    def _guard(name):
+        def f(self, pattern, *a, **k):
+            if any(isinstance(x, SymBytesBase) for x in a) or any(isinstance(x, SymBytesBase) for x in k.values()):
+                raise Inconclusive(f"re.{name} on symbolic text is not modelled")
+            return getattr(_re, name)(pattern, *a, **k)
+        return f
+
+    match = _guard("match")
+    fullmatch = _guard("fullmatch")
+    sub = _guard("sub")
+    subn = _guard("subn")
+    split = _guard("split")
+    findall = _guard("findall")
+    finditer = _guard("finditer")
+    del _guard
 
     def search(self, pattern, string, flags=0):
         self.calls.append((pattern.concrete() if isinstance(pattern, SymBytesBase) else pattern, flags))
